@@ -995,3 +995,29 @@ DDL_TEMPLATES = [
     ('block', 'for x in (select User filter .active) select x.name;'),
     ('block', "select '10\\u00a0km\\nnext';"),
 ]
+
+
+# ----------------------------------------------------------------------------- partial reserved keywords in every name position
+# `union`, `except`, `intersect` may be written bare only where the grammar takes a PathStepName / type name; the printer
+# decides per position whether to quote.  Every identifier position of a seed text is tried with a quoted partial keyword.
+
+PARTIAL_KW = ['`union`', '`except`', '`intersect`']
+
+
+def partial_reserved_texts(rnd, seeds, keywords, per_text=3, every=False):
+    """seeds: [(entry, text)]; one identifier of the text replaced by a quoted partial reserved keyword per case"""
+    out = []
+    kws = {k.lower() for k in keywords}
+    for e, t in seeds:
+        toks = rough_tokens(t)
+        if len(toks) > 300:
+            continue
+        pos = [i for i, (k, v) in enumerate(toks)
+               if (k == 'word' and not v.startswith('$') and v.lower() not in kws and not v.startswith('__')) or k == 'bq']
+        if not pos:
+            continue
+        for i in (pos if every else rnd.sample(pos, min(per_text, len(pos)))):
+            new = list(toks)
+            new[i] = ('bq', rnd.choice(PARTIAL_KW))
+            out.append((e, join_tokens(new)))
+    return out
